@@ -29,7 +29,7 @@ ERROR awkward_NumpyArray_sort_asstrings_uint8(
     int64_t stop = offsets[k + 1];
     int64_t slen = start;
     std::string strvar;
-    for (uint8_t i = (uint8_t)start;  slen < stop;  i++) {
+    for (int64_t i = start;  slen < stop;  i++) {
       slen++;
       strvar += (char)fromptr[i];
     }
